@@ -266,7 +266,12 @@ def axiom_audit(module, theorems):
 
 class Rng:
     def __init__(self, seed):
-        self.s = (seed * 0x9E3779B97F4A7C15 + 0x1234567) & 0xFFFFFFFFFFFFFFFF
+        # scramble the seed first: with a plain multiple of the increment, neighbouring seeds would yield the
+        # same stream shifted by one draw
+        z = (seed + 0x632BE59BD9B4E019) & 0xFFFFFFFFFFFFFFFF
+        z = ((z ^ (z >> 30)) * 0xBF58476D1CE4E5B9) & 0xFFFFFFFFFFFFFFFF
+        z = ((z ^ (z >> 27)) * 0x94D049BB133111EB) & 0xFFFFFFFFFFFFFFFF
+        self.s = (z ^ (z >> 31)) & 0xFFFFFFFFFFFFFFFF
 
     def next(self):
         self.s = (self.s + 0x9E3779B97F4A7C15) & 0xFFFFFFFFFFFFFFFF
